@@ -41,6 +41,7 @@ Json GenConfig::to_json() const {
   add(guards, "guards");
   add(func_decl, "func_decl");
   add(templates, "templates");
+  add(partition, "partition");
   j.set("features", feats);
   return j;
 }
@@ -247,6 +248,14 @@ struct FGen {
 
   // a random non-control statement
   bool gen_stmt(Stmt &out) {
+    if (c.partition && r.chance(1, 6)) {
+      // partitioning directive: no concrete effect, changes the representation
+      Stmt s = mk(Op::INTRINSIC);
+      s.k = r.chance(3, 4) ? "value_partition_start" : "value_partition_end";
+      s.v = {ird()};
+      out = s;
+      return true;
+    }
     for (int tries = 0; tries < 20; tries++) {
       unsigned k = (unsigned)r.below(100);
       if (k < 22) { // assign
